@@ -386,6 +386,21 @@ func FreePort(ip [4]byte) (uint16, error) {
 	return 0, fmt.Errorf("no free port on %v", ip)
 }
 
+// FreePortAt reports whether `port` is free (UDP and TCP) on ip; it returns the port if so.
+func FreePortAt(ip [4]byte, port uint16) (uint16, error) {
+	c, err := net.ListenUDP("udp4", &net.UDPAddr{IP: net.IP(ip[:]), Port: int(port)})
+	if err != nil {
+		return 0, err
+	}
+	defer c.Close()
+	l, err := net.ListenTCP("tcp4", &net.TCPAddr{IP: net.IP(ip[:]), Port: int(port)})
+	if err != nil {
+		return 0, err
+	}
+	l.Close()
+	return port, nil
+}
+
 // Process-level resource probes -------------------------------------------------------------------------
 
 // Sockets counts the socket descriptors of this process.
